@@ -21,6 +21,10 @@ func restoreIndex(rootGoitPath, path string, index *store.Index, tree *object.Tr
 
 	// get node
 	node, isNodeFound := object.GetNode(tree.Children, path)
+	if isNodeFound && len(node.Children) > 0 {
+		// a directory of that name in HEAD is not this file (its id is a tree, never a staged blob)
+		isNodeFound = false
+	}
 
 	// if the path is registered in the Index
 	if isEntryFound {
